@@ -315,7 +315,8 @@ def Denotations(pred):
     return s
   if pred.get('order') and pred.get('order_as_denotation'):
     s += ' order_by(%s)' % ', '.join(
-        '%s%s' % (o['f'], ' desc' if o['desc'] else '') for o in pred['order'])
+        '"%s%s"' % (o['f'], ' desc' if o['desc'] else '')
+        for o in pred['order'])
   if pred.get('limit', -1) >= 0 and pred.get('limit_as_denotation'):
     s += ' limit(%d)' % pred['limit']
   return s
